@@ -347,3 +347,21 @@ Print Assumptions C10_window_failure_is_the_balance_guard.
 Print Assumptions C10_average_price_defined.
 Print Assumptions C10_average_price_before_first_acquisition.
 Print Assumptions C10_every_window_nonvacuous.
+
+(** Source tie (regenerated on every run).  What the window does in ComputedData.__init__, read from computed_data.py and
+    abstract_entry_set.py by the translator (Model/GeneratedTie.v; interpreters in Model/ComputedGen.v): the yearly summary is
+    computed from the UNFILTERED fractions with the to-date cut and filtered by `y.year >= from_date.year`; the sold percentage
+    runs over the filtered fractions; the average price over the unfiltered acquisitions up to the to-date -- these are the
+    hand-written [yearly_list], [sold_pct_add] fold and [price_per_unit].  The two flags: `duplicate` re-sorts its copy
+    unconditionally (`_force_sort`: the fraction numbering is recomputed under the window's to-date, which is what
+    [numbering to_day] in [compute] models; the `_check_sort` variant is not modelled) and both `duplicate` calls precede the
+    yearly summary.  An edit that changes any of this makes this theorem stop compiling (Proofs/ComputedGen*.v). *)
+From RP2V Require Import Model.GeneratedTie Model.ComputedGen Proofs.ComputedGenProofs.
+Theorem C10_source_tie_window_views :
+  ((forall period from_day to_day gls, yearly_list_gen period from_day to_day gls = yearly_list period to_day (year_of_day from_day) gls) /\
+   (forall from_day to_day gls,
+      sold_pct_gen from_day to_day gls = fold_left (sold_pct_add from_day to_day) (iter_window g_day from_day to_day gls) (Ok [])) /\
+   (forall from_day to_day ins, price_per_unit_gen from_day to_day ins = price_per_unit to_day ins)) /\
+  gen_duplicate_force_sorts = true /\ gen_cd_duplicate_before_yearly = true.
+Proof. exact window_views_gen_agree. Qed.
+Print Assumptions C10_source_tie_window_views.
